@@ -17,6 +17,14 @@ func c09Doc(feature int, v string, n int) map[string]any {
 		s["healthcheck"] = map[string]any{"test": []any{"CMD", "x" + v}, "interval": "1m30s", "timeout": "2s", "retries": 3, "start_period": "0s"}
 		s["command"] = []any{"run", v}
 		s["entrypoint"] = "sh -c " + "e" + v
+		switch n {
+		case 0: // an explicitly empty command, written as a string or as a list
+			s["command"] = ""
+			s["entrypoint"] = []any{}
+		case 1:
+			s["command"] = []any{}
+			s["entrypoint"] = ""
+		}
 	case 2: // byte sizes
 		s["mem_limit"] = "1g"
 		s["shm_size"] = 64
@@ -45,6 +53,10 @@ func c09Doc(feature int, v string, n int) map[string]any {
 			// two mounts whose targets only differ by a trailing slash
 			s["volumes"] = append(s["volumes"].([]any), map[string]any{"type": "volume", "source": "vol", "target": "/dup/"}, map[string]any{"type": "volume", "source": "vol", "target": "/dup"})
 		}
+		// explicit values that differ from the default of an omitted attribute
+		s["volumes"] = append(s["volumes"].([]any), map[string]any{"type": "bind", "source": "/host/nb", "target": "/nb", "bind": map[string]any{"create_host_path": false}},
+			map[string]any{"type": "bind", "source": "/host/yb", "target": "/yb", "bind": map[string]any{"create_host_path": true, "propagation": "rshared"}},
+			map[string]any{"type": "volume", "source": "vol", "target": "/nc", "volume": map[string]any{"nocopy": false}})
 		s["devices"] = []any{"/dev/a:/dev/b:r"}
 		doc["volumes"] = map[string]any{"vol": map[string]any{"labels": map[string]any{"k": v}}}
 	case 6: // depends_on, networks with settings, profiles of a second service
